@@ -1,6 +1,6 @@
 """Per-property specifications: generators, projections, shrinkers, evidence texts."""
 import os
-from . import build, gen_codec, gen_rope, gen_tree, gen_hist
+from . import build, gen_codec, gen_rope, gen_tree, gen_hist, gen_json, gen_sched
 from .common import Case
 
 class Spec:
@@ -385,7 +385,97 @@ C09 = tree_spec('C09', ['src', 'm1', 'm0'] + STREAM_KEYS, gen_c09, 'ChkCombined.
     'chk_C09 is a relational reference over the two decoded maps: pass-through of other sources, resolution through the inner map (column interval, admissible names), fallback to the inner source or removal, matching contents; combined streaming is modelled in Stream/Combined.v and compared event by event')
 C09.rule = 'SourceMapSource with inner map: ASCII generated text, consistent outer map over 1-3 sources one of which is the inner source (segments into it point inside the original text), consistent inner map over the original text, original_source given or taken from the outer sourcesContent (or absent), remove_original_source both, names; both column settings'
 
-REGISTRY = {'C09': C09, 'C06': C06, 'C04': C04, 'C12': C12, 'C16': C16, 'C01': C01, 'C05': C05, 'C10': C10, 'C13': C13, 'C14': C14, 'C20': C20, 'C02': C02, 'C03': C03, 'C07': C07, 'C08': C08, 'C11': C11}
+def gen_c15(rng, tier):
+    n = 2000 if tier == 'quick' else 80000
+    out = []
+    for i in range(n):
+        out.append(gen_json.case_value(rng))
+        out.append(gen_json.case_doc(rng))
+    return out
+
+C15 = Spec('C15',
+    kinds={'jsonv': {'ser': gen_json.ser_value, 'proj': ['rt', 'rs', 'rr'], 'shrink': gen_json.shrink_value},
+           'jsond': {'ser': gen_json.ser_doc, 'proj': ['fj', 'fs', 'fr'], 'shrink': gen_json.shrink_doc}},
+    gen=gen_c15,
+    rule='SourceMap values over strings with quotes, backslashes, control characters, DEL, U+2028/2029, BMP edge and astral characters, optional fields present/absent, sourcesContent none/all-empty/partly/full; documents with null entries, null or missing arrays, reordered and unknown keys, both escape styles (raw UTF-8 and \\uXXXX incl. surrogate pairs), whitespace, type errors',
+    explanation='the independent JSON reader is the Coq parser Sem/Json.v: it must accept the bytes to_json produces and read the same fields (chk_C15_value), to_writer must be byte-identical, the three parsing entry points must return the normalised value; documents the Coq reader accepts as source maps must be read identically by from_json/from_slice/from_reader (chk_C15_doc); escaping/parsing by simd-json+serde is third-party code covered by this correspondence only',
+    checker_name='ChkJson.chk_C15_value / chk_C15_doc', model_name='Sem/Json.v')
+
+def gen_c17(rng, tier):
+    n = 1500 if tier == 'quick' else 60000
+    out = []
+    cfgs = [gen_tree.Cfg(ascii=False, bufs=0.15, invalid_utf8=0.3, sms=0.3, wild=0.6, inner=0.2),
+            gen_tree.Cfg(ascii=True, sms=0.4, wild=0.7, inner=0.3),
+            gen_tree.Cfg(ascii=False, sms=0.2, wild=0.3, replace=0.4)]
+    for i in range(n):
+        out.append(gen_tree.gen_tree_case(rng, cfgs[i % len(cfgs)]))
+        s, f = gen_codec.gen_junk_string(rng)
+        out.append(gen_codec.case_dec(s, f))
+        out.append(gen_json.case_junk(rng))
+    return out
+
+C17 = Spec('C17',
+    kinds={'tree': {'ser': gen_tree.ser_tree, 'proj': [], 'shrink': gen_tree.shrink_tree},
+           'codec_dec': {'ser': gen_codec.ser_dec, 'proj': ['dec'], 'shrink': shrink_str},
+           'jsond': {'ser': gen_json.ser_doc, 'proj': [], 'shrink': gen_json.shrink_doc}},
+    gen=gen_c17, needs_release=True,
+    rule='(a) decoder: strings over the base64 alphabet, separators and junk, continuation runs up to 45 digits, deltas up to 2^70; (b) parsers: arbitrary bytes, truncated and byte-perturbed documents, nesting up to 3000 deep, huge numbers, through from_json/from_slice/from_reader; (c) trees with multi-byte text, invalid-UTF-8 buffers, wild sorted maps (segments, source and name indices outside text and tables, original line 0), combined maps, replacements on char boundaries or beyond the end: every Source method and all four streaming modes; debug (overflow-checked) and release builds',
+    explanation='decoder: theorem that no overflow check of the Rust arithmetic can fail (Sem/Panic.v) + correspondence; trees/parsers: every observer runs under catch_unwind in both builds, aborts and hangs are detected per case; a panic inside the documented domain is a violation (class K3 is a known finding)',
+    checker_name='ChkTree.chk_C17 (domain) + panic/abort/hang detection in ocaml/driver.ml', model_name='Codec/Vlq.v, Stream/Tree.v')
+
+def gen_c19(rng, tier):
+    n = 1200 if tier == 'quick' else 50000
+    out = []
+    cfgs = [gen_tree.Cfg(ascii=False, bufs=0.15, invalid_utf8=0.3, sms=0.3, wild=0.6, inner=0.2),
+            gen_tree.Cfg(ascii=False, sms=0.2, wild=0.3, replace=0.4, cached=0.2)]
+    for i in range(n):
+        out.append(gen_rope.gen_case(rng))
+        out.append(gen_tree.gen_tree_case(rng, cfgs[i % len(cfgs)]))
+        if i % 3 == 0:
+            out.append(gen_codec.case_enc(gen_codec.gen_sorted_mappings(rng)))
+    # empty multi-piece ropes
+    for p in [('iter', []), ('iter', ['', '']), ('app', ('new',), ('iter', [''])), ('slice', ('iter', ['a', 'b']), 1, 1), ('add', ('new',), '')]:
+        out.append(Case('rope', {'p': p, 'q': ('new',)}, {'nontrivial', 'empty_multi_piece'}))
+    return out
+
+C19 = Spec('C19',
+    kinds={'rope': {'ser': gen_rope.ser_rope, 'proj': [], 'shrink': gen_rope.shrink_rope},
+           'tree': {'ser': gen_tree.ser_tree, 'proj': [], 'shrink': gen_tree.shrink_tree},
+           'codec_enc': {'ser': gen_codec.ser_enc, 'proj': [], 'shrink': shrink_enc}},
+    gen=gen_c19,
+    rule='rope programs of C16 (incl. empty multi-piece ropes, all slice ranges), source trees of C01 with multi-byte text, invalid-UTF-8 buffers and wild maps (all observers, all four streaming modes), encoder inputs; a guarded probe immediately before each of the 14 unsafe operations evaluates its documented precondition on the runtime arguments',
+    explanation='Coq: the preconditions are theorems of the model - rope_slice never reaches SUB (C16_slice), substring offsets come from char_indices, the encoder emits only ASCII (C12_alphabet), a cached map is never replaced (C18); the probes (hook H4) report any violated precondition in the running code, debug-assertion aborts are detected per case',
+    checker_name='unsafe-precondition probes (hook H4) + abort detection', model_name='Rope/RopeModel.v (SUB), Codec/Vlq.v')
+
+def gen_c18(rng, tier):
+    n = 1500 if tier == 'quick' else 40000
+    out = []
+    for i in range(n):
+        out.append(gen_sched.gen_sched_R(rng) if i % 2 == 0 else gen_sched.gen_sched_C(rng))
+    # bounded exhaustive: 2 threads, all interleavings of one observer vs one clone on a stale index,
+    # and of map vs stream on a cold cache
+    inner = ('raws', 'abcdef')
+    rs = [(1, 2, 'X', None, 1), (0, 1, 'Y', None, 1)]
+    for progs, steps in (([['sorted'], ['clone']], [4, 6]), ([['sorted'], ['sorted']], [4, 4]), ([['clone'], ['clone']], [6, 6])):
+        inter = sorted(gen_sched.all_interleavings(steps))
+        if tier == 'quick':
+            inter = inter[::max(1, len(inter) // 60)]
+        for sch in inter:
+            out.append(Case('sched', {'k': 'R', 'inner': inner, 'rs': rs, 'presort': 2, 'progs': progs, 'sched': list(sch)}, {'nontrivial', 'exhaustive_scope'}))
+    innerc = ('orig', 'a;b\nc', 'f0.js')
+    for progs, steps in (([['m0'], ['s0']], [2, 1]), ([['m0'], ['m0']], [2, 2]), ([['m0', 's0'], ['s0', 'm0']], [3, 3]), ([['m0'], ['s0'], ['m0']], [2, 1, 2])):
+        for sch in sorted(gen_sched.all_interleavings(steps)):
+            out.append(Case('sched', {'k': 'C', 'inner': innerc, 'progs': progs, 'sched': list(sch)}, {'nontrivial', 'exhaustive_scope'}))
+    return out
+
+C18 = Spec('C18',
+    kinds={'sched': {'ser': gen_sched.ser_sched, 'proj': None, 'shrink': gen_sched.shrink_sched}},
+    gen=gen_c18, normalize=gen_sched.normalize,
+    rule='2-3 threads with 1-3 operations each over a shared ReplaceSource (observers that sort lazily, clone; cold, sorted or stale index) or a shared CachedSource and clones of it (map and stream in all option sets); random schedules at the granularity of the schedule points before each shared-state access, plus all interleavings of small programs (observer vs clone on a stale index; map vs stream on a cold cache)',
+    explanation='Sem/Conc.v is an interleaving semantics with one step per shared-state access; the harness executes the same schedule on real threads parked at the hook-H3 schedule points and the per-thread site traces, all results, the final flag/index and the storage identity of every cache entry after every step are compared with the model; chk_C18_* : every result equals the sequential answer, every clone satisfies the object invariant, cache entries are write-once',
+    checker_name='ApiSched.chk_C18_replace / chk_C18_cached', model_name='Sem/Conc.v')
+
+REGISTRY = {'C18': C18, 'C19': C19, 'C17': C17, 'C15': C15, 'C09': C09, 'C06': C06, 'C04': C04, 'C12': C12, 'C16': C16, 'C01': C01, 'C05': C05, 'C10': C10, 'C13': C13, 'C14': C14, 'C20': C20, 'C02': C02, 'C03': C03, 'C07': C07, 'C08': C08, 'C11': C11}
 
 def get(pid):
     return REGISTRY[pid]
